@@ -90,6 +90,12 @@ func init() {
 		Shards: [2]int{16, 16}, MinEvals: [2]int{20, 200},
 	})
 	reg(&propCfg{
+		ID: "C14", Level: "exploration",
+		Rule: "all strategies (registry rows at default and random configurations, And/Or/Majority/Split/MACD-RSI, decorators, nested) x n in {w_s+1, w_s+2, 2w_s+9, 251} on walk / 2-decimal / ties series: Report(snapshots) is built and (a) its date channel and every column channel (reached through the unexported values field by reflection) are drained by independent readers and counted: every column must yield exactly as many values as there are date rows and the date axis must be the last rows of the snapshot dates; (b) per row the Close column equals the snapshot's close, the annotation equals Annotation(NormalizeActions(Compute)) at that date and Outcome equals 100 x the outcome as of that date (recomputed by the harness); (c) a second report is rendered with WriteToWriter in the timer-free child (a wedge is reported by the runtime), its data.addRow rows are parsed: one per date, every cell equal to the drained value, and no column is left with unconsumed values; (d) dependence front per indicator column: changing the snapshots from position p on must first change the row of p's date, never an earlier one and not consistently a later one. distinct_nontrivial counts (strategy configuration, n) cases.",
+		Shards: [2]int{16, 16}, MinEvals: [2]int{100, 500},
+		RequirePositive: "cmp:", RequireCount: 32,
+	})
+	reg(&propCfg{
 		ID: "C07", Level: "exploration",
 		Rule: "the real And/Or/Majority/Split/Inverse/NoLoss/StopLoss combinators (and nestings NoLoss(StopLoss), StopLoss(NoLoss), Inverse(NoLoss), NoLoss(Inverse), NoLoss(And)) wrap scripted stub strategies that replay chosen action words; the output is compared with slice models of the specified combination (votes over position-wise DENORMALISED words, split rule, swap, explicit no-loss / stop-loss state machines over (action, close)) and, independently, with two trace safety monitors (no Sell at a close not above the preceding Buy's close; a Sell at the first close <= buy*(1-pct)). Exhaustive: all tuples of k words of length n for k=1 (n<=7), k=2 (n<=4), k=3 (n<=2 quick / n<=3 thorough) x 4 closing series x 3 percentages where relevant; plus random words up to length 200 with up to 6 sub-strategies. MACD-RSI is compared with the agreement rule over its own two real sub-strategies. distinct_nontrivial counts distinct (shape, word tuple) cases with n >= 2.",
 		Exhaustive: "all k-tuples of action words over {Sell,Hold,Buy}: k=1 n<=7, k=2 n<=4, k=3 n<=2 (quick) / n<=3 (thorough), for every combinator shape",
